@@ -23,7 +23,10 @@ TRICKY = ["yes", "no", "null", "~", "1e3", "0x10", "017", "1_000", "2024-01-01",
           "#x", " lead", "trail ", "'q'", '"dq"', "tab\there", "multi\nline", "\\", "!tag", "&anc", "*ali", "%dir",
           "@at", "`bt", "{}", "[]", "true", "False", ".inf", ".nan", "0.5", "+1", "-0", "0b11", "é", "ß", "中", "😀",
           " ", " ", "6ba7b810-9dad-11d1-80b4-00c04fd430c8", "0123456789abcdef0123456789abcdef",
-          "urn:uuid:6ba7b811-9dad-11d1-80b4-00c04fd430c8"]
+          "urn:uuid:6ba7b811-9dad-11d1-80b4-00c04fd430c8",
+          # characters that text-file writers and readers treat as line breaks, marks or controls
+          "a\u0085b", "\u0085\u0085", "x\u2029y", "\ufeffbom", "del\x7f", "us\x1fx", "cr\rx", "crlf\r\nx",
+          "soft\u00adhyphen", "\u200bzw", "tab\t", "nl\n", "\n", "e\u0301", "\U0001F600\U0001F680", "a\u0085 b"]
 
 
 def rint(r, neg=False):
@@ -136,6 +139,15 @@ def version(r):
     if r.random() < 0.5:
         return [rint(r, True) for _ in range(r.randrange(1, 5))]
     s = ".".join(str(r.randrange(0, 300)) for _ in range(r.randrange(1, 4)))
+    if r.random() < 0.15:
+        # forms outside the documented grammar that create accepts: '-' is a separator like '.', also before digits
+        # (revision suffix 1.2.3-4, date-like 2024-09-26, a number behind a label separated by '-')
+        c = r.random()
+        if c < 0.4:
+            return s + "-" + str(r.randrange(0, 300))
+        if c < 0.7:
+            return "-".join(str(r.randrange(1, 3000)) for _ in range(r.randrange(2, 4)))
+        return s + "-" + r.choice(["alpha", "beta", "rc"]) + "-" + str(r.randrange(0, 300))
     if r.random() < 0.5:
         s += "-" + r.choice(["alpha", "beta", "rc"])
         if r.random() < 0.5:
